@@ -24,6 +24,11 @@ def harnesses(ctx, tier):
                   timeout=1500, mem_gb=24,
                   desc="yr_arena_load_stream on arbitrary file bytes; case: " + what, bounds="file <= %d bytes (length symbolic = every truncation), <= 2 buffers" % F,
                   functions=["yr_arena_load_stream", "yr_arena_create", "yr_arena_allocate_memory", "yr_arena_make_ptr_relocatable", "yr_arena_ref_to_ptr", "yr_arena_release", "yr_stream_read"]))
+    hs.append(Harness(name="H3_prefix_of_saved_file", src="c08/roundtrip.c", defines=["-DVF_MODE=2"], unwind=4,
+              unwind_funcs={"vf_fill": 26, "vf_wr": 27, "vf_rd": 27, "memcmp": 26, "main": 26, "is_slot": 4, "build": 4}, timeout=900,
+              desc="a well-formed file written by the real yr_arena_save_stream (symbolic arena) cut at EVERY byte position (symbolic n < |F|): yr_arena_load_stream must not succeed",
+              bounds="file of 70..86 bytes, 2 buffers, <=2 relocation entries; prefix length symbolic",
+              functions=["yr_arena_save_stream", "yr_arena_load_stream"]))
     B = 100
     hs.append(Harness(name="H2_rules_from_any_arena", src="c17/load.c", defines=["-DVF_MODE=3", "-DVF_B=%d" % B, "-DVF_F=8"],
               unwind=18, flags=["--unwindset", "vf_fill.0:%d,yr_rules_from_arena.0:4" % (B + 1)],
